@@ -395,7 +395,8 @@ def _indices(rng, n: int, cap: int) -> list[int]:
     return sorted(s)
 
 
-def _after_check(wl: Workload, ci: int, ii: int, others: list, cache: dict, full: bool, in_thread: bool) -> str | None:
+def _after_check(wl: Workload, ci: int, ii: int, others: list, cache: dict, full: bool, in_thread: bool,
+                 block_s: float = 20.0) -> str | None:
     """After a failed call: the same cached closure (and a freshly requested
     one - the cache hands out the same object) must still produce goldens."""
     todo = [["enc", ci, ii, 1], ["dec", ci, ii, 1]]
@@ -417,11 +418,17 @@ def _after_check(wl: Workload, ci: int, ii: int, others: list, cache: dict, full
                 return
 
     if in_thread:
-        th = threading.Thread(target=go)
+        th = threading.Thread(target=go, daemon=True)
         th.start()
-        th.join()
+        th.join(timeout=block_s)
+        if th.is_alive():
+            return "blocked-forever"
     else:
-        go()
+        try:
+            with core.wall_backstop(int(block_s)):
+                go()
+        except core.SimWallAlarm:
+            return "blocked-forever"
     return res[0] if res else None
 
 
@@ -437,9 +444,17 @@ def _clear_caches() -> None:
             clear()
 
 
-def _faults_child(wl_json: dict, gold: list, ci: int, ii: int, others: list, plan_seed: int, only: list | None) -> dict:
+def _faults_child(wl_json: dict, gold: list, ci: int, ii: int, others: list, plan_seed: int, only: list | None,
+                  group: str = "io") -> dict:
     """Sweep (or, with ``only``, replay one) fault point for instance (ci, ii).
-    ``only`` = [phase, index, inject_kind]."""
+    ``only`` = [phase, index, inject_kind].  Two groups, each in its own fork:
+    "io" (errors raised by the stream: they unwind through Python code, every
+    with-block and finally runs) and "async" (interrupts raised between two
+    lines, where CPython itself cannot guarantee that a ``with lock:`` is left
+    cleanly - a call that blocks forever afterwards is therefore only a probe
+    there, while after an I/O error it is a violation)."""
+    if only is not None:
+        group = "io" if only[0] in ("write", "read") else "async"
     from kio.serial import entity_reader, entity_writer
 
     wl = Workload.from_json(wl_json)
@@ -462,8 +477,13 @@ def _faults_child(wl_json: dict, gold: list, ci: int, ii: int, others: list, pla
     def build_r():
         entity_reader(cls)
 
-    phases = []
-    if only is None or only[0] in ("cold-w", "cold-r"):
+    def blocked_async(sig):
+        if sig == "blocked-forever":
+            st.inc("probe_blocked_after_async_interrupt")
+            return True
+        return False
+
+    if group == "async" and (only is None or only[0] in ("cold-w", "cold-r")):
         for phase, fn in (("cold-w", build_w), ("cold-r", build_r)):
             if only is not None and only[0] != phase:
                 continue
@@ -478,7 +498,9 @@ def _faults_child(wl_json: dict, gold: list, ci: int, ii: int, others: list, pla
                 st.inc("fault_interrupt_during_build")
                 if not isinstance(exc, steps.SimInterrupt) and n_ran >= j + 1:
                     st.inc("probe_interrupt_swallowed_or_replaced")
-                sig = _after_check(wl, ci, ii, others, cache, full=True, in_thread=False)
+                sig = _after_check(wl, ci, ii, others, cache, full=True, in_thread=False, block_s=5)
+                if blocked_async(sig):
+                    return {"fail": None, "stats": dict(st)}
                 if sig is not None:
                     return done(phase, j, "interrupt", "after-build-interrupt:" + sig)
     try:
@@ -487,7 +509,7 @@ def _faults_child(wl_json: dict, gold: list, ci: int, ii: int, others: list, pla
     except Exception as e:  # noqa: BLE001
         return done("warm-up", -1, "none", f"creating-codec-raised-after-cold-phase:{type(e).__name__}")
     # -- I/O error raised by the sink at write call i
-    if only is None or only[0] == "write":
+    if group == "io" and (only is None or only[0] == "write"):
         idxs = [only[1]] if only is not None else _indices(rng, W, 400)
         for n_, i in enumerate(idxs):
             kind = only[2] if only is not None else INJECT_W[rng.randrange(len(INJECT_W))]
@@ -508,7 +530,7 @@ def _faults_child(wl_json: dict, gold: list, ci: int, ii: int, others: list, pla
             if sig is not None:
                 return done("write", i, kind, "after-write-fault:" + sig)
     # -- I/O error raised by the source at read call i
-    if only is None or only[0] == "read":
+    if group == "io" and (only is None or only[0] == "read"):
         idxs = [only[1]] if only is not None else _indices(rng, R, 400)
         for n_, i in enumerate(idxs):
             kind = only[2] if only is not None else INJECT_R[rng.randrange(len(INJECT_R))]
@@ -528,7 +550,7 @@ def _faults_child(wl_json: dict, gold: list, ci: int, ii: int, others: list, pla
                 return done("read", i, kind, "after-read-fault:" + sig)
     # -- asynchronous interrupt at kio line step j of a warm encode / decode
     for phase, fn in (("int-w", lambda: w(streams.SimSink(), inst)), ("int-r", lambda: r(streams.SimSource(data)))):
-        if only is not None and only[0] != phase:
+        if group != "async" or (only is not None and only[0] != phase):
             continue
         n_steps, _res, exc = steps.count_steps(fn)
         js = [only[1]] if only is not None else _indices(rng, n_steps, 160)
@@ -540,15 +562,21 @@ def _faults_child(wl_json: dict, gold: list, ci: int, ii: int, others: list, pla
             if where and "write_tagged_field" in str(where):
                 st.inc("probe_interrupt_inside_tagged_scratch")
             full = (n_ % 8 == 0) or n_ == len(js) - 1
-            sig = _after_check(wl, ci, ii, others, cache, full=full, in_thread=False)
+            sig = _after_check(wl, ci, ii, others, cache, full=full, in_thread=False, block_s=5)
+            if blocked_async(sig):
+                return {"fail": None, "stats": dict(st)}
             if sig is not None:
                 return done(phase, j, "interrupt", "after-interrupt:" + sig)
-    st.inc("fault_points_W", W)
-    st.inc("fault_points_R", R)
+    if group == "io":
+        st.inc("fault_points_W", W)
+        st.inc("fault_points_R", R)
     return {"fail": fail, "stats": dict(st)}
 
 
 # ---- T: thread interleavings ---------------------------------------------------------------
+
+
+_STALL_TIMEOUT = [1.0]  # lowered (per worker) once a tree turns out to block, see Scheduler
 
 
 def _threads_child(wl_json: dict, gold: list, programs: list, policy: dict, sched_seed: int, forced: list | None,
@@ -568,9 +596,11 @@ def _threads_child(wl_json: dict, gold: list, programs: list, policy: dict, sche
                     return
         return body
 
-    sch = Scheduler(core.random.Random(sched_seed), policy, step_cap, forced)
+    sch = Scheduler(core.random.Random(sched_seed), policy, step_cap, forced, stall_timeout=_STALL_TIMEOUT[0])
     sch.run([mk(ti, prog) for ti, prog in enumerate(programs)])
     fail = None
+    if sch.deadlock:
+        fail = {"thread": -1, "op": -1, "signature": "T:threads-blocked-forever"}
     for ti in sorted(results):
         for i, sig in enumerate(results[ti]):
             if sig is not None and fail is None:
@@ -583,13 +613,22 @@ def _threads_child(wl_json: dict, gold: list, programs: list, policy: dict, sche
             else:
                 fail = {"thread": ti, "op": -1, "signature": f"T:harness-or-unexpected:{type(e).__name__}:{e}"}
     unfinished = [ti for ti, prog in enumerate(programs) if len(results.get(ti, [])) < len(prog)]
-    if fail is None and unfinished:
+    if fail is None and unfinished and not sch.deadlock:
         fail = {"thread": unfinished[0], "op": -1, "signature": "T:thread-did-not-finish"}
     import hashlib
 
     inter = hashlib.sha256(core.canon([sch.schedule, sch.switch_sites]).encode()).hexdigest()[:16]
     return {"fail": fail, "schedule": sch.schedule, "steps": sch.steps, "switches": sum(1 for s in sch.schedule if len(s) == 2),
+            "stalls": sch.stalls, "undetermined": sch.undetermined,
             "probes": sch.probes, "interleaving": inter, "sites": sch.switch_sites[:8]}
+
+
+def _note_stalls(res: dict, stats) -> None:
+    if res.get("undetermined"):
+        stats.inc("runs_finished_only_without_baton_discipline")
+    if res.get("stalls"):
+        stats.inc("blocking_stalls_resolved_by_monitor", res["stalls"])
+        _STALL_TIMEOUT[0] = 0.02  # this tree blocks: do not wait a full second each time
 
 
 def _dryrun_child(wl_json: dict, gold: list, programs: list) -> int:
@@ -704,7 +743,11 @@ def run_task(task: dict) -> dict:
                 rng.shuffle(others)
                 others = others[:3]
                 plan_seed = rng.getrandbits(48)
-                res = forkrun.run(_faults_child, wl.to_json(), wl.gold, ci, ii, others, plan_seed, None, timeout_s=600)
+                res = forkrun.run(_faults_child, wl.to_json(), wl.gold, ci, ii, others, plan_seed, None, "io", timeout_s=900)
+                if res["fail"] is None:
+                    res2 = forkrun.run(_faults_child, wl.to_json(), wl.gold, ci, ii, others, plan_seed, None, "async", timeout_s=900)
+                    res = {"fail": res2["fail"], "stats": {k: res["stats"].get(k, 0) + res2["stats"].get(k, 0)
+                                                           for k in set(res["stats"]) | set(res2["stats"])}}
                 stats.merge(res["stats"])
                 n_faults = sum(v for k, v in res["stats"].items() if k.startswith("fault_") and not k.startswith("fault_points"))
                 stats.inc("evaluations", n_faults)
@@ -750,6 +793,7 @@ def run_task(task: dict) -> dict:
             for j in js:
                 forced = [[-1, 0, "start"], [j + 1, 1], [0, 0, "exit"]]
                 res = forkrun.run(_threads_child, wl.to_json(), wl.gold, programs, {"kind": "forced", "p": 0.0}, 0, forced, 400_000)
+                _note_stalls(res, stats)
                 stats.inc("evaluations")
                 stats.inc("sweep_preemption_points")
                 stats.inc("thread_steps", res["steps"])
@@ -774,9 +818,15 @@ def run_task(task: dict) -> dict:
                 continue
             programs = gen_programs(rng, wl)
             policy, dry = draw_policy(rng, wl, programs)
+            if _STALL_TIMEOUT[0] < 1.0 and policy.get("p", 0.0) > 0.01:
+                # this tree blocks on locks: every pre-emption inside a locked region costs a
+                # monitor time-out, so pre-empt less often (most of those interleavings cannot happen anyway)
+                policy = {**policy, "p": 0.01}
+                stats.inc("policy_throttled_because_tree_blocks")
             sched_seed = rng.getrandbits(48)
             step_cap = 4_000_000 if policy.get("opcodes") else 400_000
-            res = forkrun.run(_threads_child, wl.to_json(), wl.gold, programs, policy, sched_seed, None, step_cap, timeout_s=600)
+            res = forkrun.run(_threads_child, wl.to_json(), wl.gold, programs, policy, sched_seed, None, step_cap, timeout_s=900)
+            _note_stalls(res, stats)
             stats.inc("evaluations")
             stats.inc("thread_steps", res["steps"])
             stats.inc("thread_switches", res["switches"])
@@ -816,7 +866,7 @@ def evaluate(scenario: dict):
         if wl.gold[ci][ii] is None:
             return None
         res = forkrun.run(_faults_child, wl.to_json(), wl.gold, ci, ii, [tuple(o) for o in scenario["others"]],
-                          scenario["plan_seed"], scenario["only"], timeout_s=600)
+                          scenario["plan_seed"], scenario["only"], "io", timeout_s=900)
         return res["fail"]["signature"] if res["fail"] else None
     if layer == "T":
         if any(wl.gold[op[1]][op[2]] is None for prog in scenario["programs"] for op in prog if len(op) > 2 and isinstance(op[2], int) and op[2] >= 0
